@@ -52,4 +52,7 @@ def check(run, model, tier):
     kind_independence(run, model, w)
     for kind, reg in sorted(w.registry.items()):
         run.inst('KIND.wiring', w.subscribe, 'kind %s -> registry %s -> thread %s' % (kind, reg, w.threads[reg]['runner'].name), True, obligation=True)
+    # "the back" / "the front" of an active object's queue are what LockingDeque.append / appendleft make of them: one deque operation at that end, existing order kept
+    run.rule('ENDS.locking', 'LockingDeque.append/appendleft put the item at the same-named end of the deque with one operation, leaving the pending events in order')
+    queues.check_locking_deque(run, model, 'ENDS.locking', None, None)
     run.assume('subscriber queues are deques or LockingDeques consumed from the left by next_rtc (C14)')
